@@ -46,7 +46,7 @@ def run(c):
     c.distinct_nontrivial = len(distinct)
     return c.finish(
         "model_checking",
-        rule="schedule = (cache kind, ttl | (gossip, history), op sequence); exhaustive: every sequence up to length N over {ins k0, ins k1, has k0, has k1, tick 1} (N=4 for ttl 1..3 in quick) containing an insert, and over {put, validate, remove, shift, iwant} for one message with gossip ids observed after every step (N=3..4 for (gossip,history) in (0,0),(1,1),(1,2),(2,3)) containing a put; directed remove/re-put scenarios; random: 5..40 ops over 1..4 keys/ids, ttl 1..4, history 0..4, gossip <= history; distinct = distinct schedules (all contain at least one insert/put in the exhaustive part)",
+        rule="schedule = (cache kind, ttl | (gossip, history), op sequence); exhaustive: every sequence up to length N over {ins k0, ins k1, has k0, has k1, tick 1} (N=4 for ttl 1, 5 for ttl 2 in quick) containing an insert, and over {put, validate, remove, shift, iwant} for one message with gossip ids observed after every step (N=3..4 for (gossip,history) in (0,0),(1,1),(1,2),(2,3)) containing a put; directed remove/re-put scenarios; random: 5..40 ops over 1..4 keys/ids, ttl 1..4, history 0..4, gossip <= history; distinct = distinct schedules (all contain at least one insert/put in the exhaustive part)",
         assumptions=["duplicate cache time = real clock + thread-local offset advanced in units of 1000 s; a run takes far less than one unit",
                      "history_gossip <= history_length (what ConfigBuilder::build guarantees, C34)"],
     )
